@@ -179,7 +179,9 @@ func panicKind(r any) string {
 }
 
 func main() {
-	slog.SetDefault(slog.New(slog.NewTextHandler(io.Discard, nil)))
+	if os.Getenv("VERIF_LOG") == "" {
+		slog.SetDefault(slog.New(slog.NewTextHandler(io.Discard, nil)))
+	}
 	if len(os.Args) < 2 {
 		fmt.Fprintln(os.Stderr, "usage: harness gen|exec ...")
 		os.Exit(2)
